@@ -139,3 +139,40 @@ Proof.
   destruct (copula_joint_fv_all flags) eqn:J; [|reflexivity].
   rewrite (joint_all_nth flags r) by (try exact J; lia). reflexivity.
 Qed.
+
+(* ================= wave 8 (audit 5a, B6): the diagonal against the 1-d chain WITHOUT the hypothesis =================
+   BOOKKEEPING (algebra on copula_variance_matrix_entries): for a margin of infinite variation the diagonal entry of the copula
+   chain's variance matrix is the 1-d chain's sigma_h^2 MINUS the amount by which vol_adjustment_ij(k,k) falls short of the
+   margin's central-cell second moment.  The content is in what that amount is on /repo: see tab2_strip_gap / F-C04-6. *)
+Theorem copula_diagonal_gap (d : nat) (flags : list bool) (sigmas : list Q) (m2t : nat -> Q -> Q -> Q) (h : Q) vadj :
+  length flags = d -> forall k, (k < d)%nat -> nth k flags false = false ->
+  copula_variance_matrix_cur d flags (map (fun s => s * s) sigmas) vadj k k
+  == sig_h2 (m2t k) (nth k sigmas 0) false h - (vol_adj2 (m2t k) false h - vadj k k).
+Proof.
+  intros Hl k Hk F. rewrite copula_variance_matrix_cur_entries by assumption. rewrite Nat.eqb_refl, F. cbn [orb].
+  replace (nth k (map (fun s => s * s) sigmas) 0) with (nth k sigmas 0 * nth k sigmas 0)
+    by (change 0 with ((fun s => s * s) 0) at 3; rewrite map_nth; reflexivity).
+  unfold sig_h2, sym_entry. rewrite Nat.leb_refl. lra.
+Qed.
+
+(* the witness of F-C04-6: density 1 on [0,1]^2 and on [-1,0]^2, h = 1/2, sigma = (1/2, 1/4), both margins flagged infinite variation *)
+Definition strip_witness : table2 := [(0, 1, 0, 1, 1); (-(1), 0, -(1), 0, 1)].
+Lemma strip_witness_values :
+  Qeq_bool (copula_variance_matrix_cur 2 [false; false] (map (fun s => s * s) [1#2; 1#4]) (tab2_vadj strip_witness (1#2)) 0%nat 0%nat) ((1#4) + (1#384)) = true
+  /\ Qeq_bool (sig_h2 (tmass (tab2_margin_m2 strip_witness 1 0%nat) (-(1)) 1) (1#2) false (1#2)) ((1#4) + (1#96)) = true
+  /\ Qeq_bool (copula_variance_matrix_cur 2 [false; false] (map (fun s => s * s) [1#2; 1#4]) (tab2_vadj strip_witness (1#2)) 1%nat 1%nat) ((1#16) + (1#384)) = true
+  /\ Qeq_bool (sig_h2 (tmass (tab2_margin_m2 strip_witness 1 1%nat) (-(1)) 1) (1#4) false (1#2)) ((1#16) + (1#96)) = true
+  /\ Qeq_bool (tab2_strip_gap strip_witness 1 (1#2) 0%nat) (1#128) = true.
+Proof. vm_compute. repeat split. Qed.
+(* REFUTED: "the diagonal of the copula chain's variance matrix is the sigma_h^2 of the 1-d chain of each margin" -- with vadj = what
+   vol_adjustment_ij integrates (the central cube, tied to /repo by the correspondence group copulastrip) the copula chain's margin
+   is strictly under-dispersed *)
+Theorem copula_margin_variance_is_1d_chain_refuted :
+  exists (t : table2) (h big : Q) (sigmas : list Q) (k : nat),
+    0 < h /\ (k < 2)%nat
+    /\ copula_variance_matrix_cur 2 [false; false] (map (fun s => s * s) sigmas) (tab2_vadj t h) k k
+       < sig_h2 (tmass (tab2_margin_m2 t big k) (- big) big) (nth k sigmas 0) false h
+    /\ 0 < tab2_strip_gap t big h k.
+Proof.
+  exists strip_witness, (1#2), 1, [1#2; 1#4], 0%nat. repeat split; try (vm_compute; reflexivity). lia.
+Qed.
